@@ -94,3 +94,29 @@ func TestC10R(t *testing.T) {
 	common.Drive(t, rec, func(rt *rapid.T) *Plan { return genPlanC10R(rt) }, run)
 	completed = true
 }
+
+func TestC03R(t *testing.T) {
+	rec := common.NewRec("C03", "real")
+	completed := false
+	defer func() { rec.Finish(completed) }()
+	run := func(p *Plan) *common.Fail {
+		rec.InFlight(p)
+		res := runReal(p)
+		rec.Landed()
+		if res.ConnErr != "" {
+			rec.Inconclusive("initial connect failed")
+			return nil
+		}
+		if f := oracleC03R(p, res); f != nil {
+			return f
+		}
+		rec.Class("real senders>=2: " + map[bool]string{true: "yes", false: "no"}[len(p.Senders) >= 2])
+		if classifyC03(p, res, rec) || len(p.Senders) >= 2 {
+			rec.NonTrivial(common.HashJSON(p))
+		}
+		rec.Sample("real", map[string]any{"plan": p})
+		return nil
+	}
+	common.Drive(t, rec, func(rt *rapid.T) *Plan { return genPlanC03R(rt) }, run)
+	completed = true
+}
